@@ -107,6 +107,62 @@ def specPost (reg0 : Reg W) (P0 H : List (Genome W)) (species : List (Species W)
   | some s => SpeciesPost reg0 P0 s.expectedOffspring.toNat (view0 H)
   | none => fun _ _ => True
 
+theorem epochCtx_of (X H : List (Genome W)) (p1 : Pop W) (hP1 : PoolOk p1.reg (X ++ genomesOfPop p1)) (hc1 : PopC03 H p1)
+    (hX : ∀ g ∈ X, GenomeIn H g) : EpochCtx p1.reg H (X ++ genomesOfPop p1) := by
+  refine ⟨hc1.inv, hP1, fun g hg => ?_⟩
+  rcases List.mem_append.mp hg with hx | hg
+  · exact hX g hx
+  · obtain ⟨s, hs, x, hx, rfl⟩ := mem_genomesOfPop.mp hg
+    exact hc1.cov s hs x hx
+
+/-- the start of the parallel phase is covered: invariant + every goroutine's obligation -/
+theorem species_start_covered (X H : List (Genome W)) (o : EpochOpts W) (generation : Int) (p1 : Pop W) (ex : ExecState)
+    (streams : List (List Nat)) (hP1 : PoolOk p1.reg (X ++ genomesOfPop p1)) (hc1 : PopC03 H p1) (hX : ∀ g ∈ X, GenomeIn H g) :
+    Covered p1.reg.nextInn (specPost p1.reg (X ++ genomesOfPop p1) H p1.species) (binds H) (roles H)
+      ({ reg := p1.reg, threads := speciesThreads o generation p1 ex streams } : PState W (BRes W)) := by
+  have ctx := epochCtx_of X H p1 hP1 hc1 hX
+  refine ⟨⟨binds H, roles H, [], []⟩, fun _ => view0 H, ?_, ?_⟩
+  · refine ⟨⟨hc1.inv, by simp, by simp, by simp, by simp, by simp, by simp, by simp, by simp,
+              by simp [regInns_def, hc1.norec], by simp, Int.le_refl _⟩,
+            fun t => ⟨fun _ hb => hb, fun _ hp => hp, by simp [view0], by simp [view0], by simp [view0]⟩,
+            fun _ hb => .inl hb, fun _ hp => .inl hp, fun _ hb => hb, fun _ hp => hp⟩
+  · intro t q hq
+    simp only [speciesThreads, List.getElem?_map, List.getElem?_zipIdx] at hq
+    cases hs : p1.species[t]? with
+    | none => rw [hs] at hq; cases hq
+    | some s =>
+      rw [hs] at hq
+      simp only [Option.map_some, Option.some.injEq] at hq
+      subst hq
+      have hsm : s ∈ p1.species := List.mem_of_getElem? hs
+      unfold specPost
+      rw [hs]
+      refine reproduceSpeciesP_valid ctx o generation s _ p1.reg p1.nextUid _ (view0 H)
+        (fun x hx => List.mem_append_right _ (mem_genomesOfPop.mpr ⟨s, hsm, x, hx, rfl⟩))
+        (fun sp hsp x hx => ?_) ⟨fun _ hb => hb, fun _ hp => hp⟩
+      obtain ⟨i, _, hi⟩ := List.mem_filterMap.mp hsp
+      exact List.mem_append_right _ (mem_genomesOfPop.mpr ⟨sp, List.mem_of_find?_eq_some hi, x, hx, rfl⟩)
+
+/-- **every species goroutine delivers exactly its quota of well-formed babies - under every schedule** -/
+theorem parSpecies_delivers (X H : List (Genome W)) (o : EpochOpts W) (generation : Int) (p1 : Pop W) (ex : ExecState)
+    (streams : List (List Nat)) (sched : List Nat) (hP1 : PoolOk p1.reg (X ++ genomesOfPop p1)) (hc1 : PopC03 H p1)
+    (hX : ∀ g ∈ X, GenomeIn H g) (t : Nat) (bs : List (Org W)) (uid : Nat) (rs' : List Nat)
+    (hdone : (runSched ({ reg := p1.reg, threads := speciesThreads o generation p1 ex streams } : PState W (BRes W)) sched).threads[t]?
+        = some (Prog.done (Except.ok ((bs, uid), rs')))) :
+    ∃ s, p1.species[t]? = some s ∧ bs.length = s.expectedOffspring.toNat ∧ ∀ b ∈ bs, WFT b.genome := by
+  obtain ⟨G, Ls, hg, hpost⟩ := flush_all (sched_sound sched (species_start_covered X H o generation p1 ex streams hP1 hc1 hX))
+  have hp := hpost t _ hdone
+  have htl : t < p1.species.length := by
+    have : t < (runSched ({ reg := p1.reg, threads := speciesThreads o generation p1 ex streams } : PState W (BRes W)) sched).threads.length := by
+      rcases Nat.lt_or_ge t _ with h' | h'
+      · exact h'
+      · rw [List.getElem?_eq_none h'] at hdone; cases hdone
+    rw [runSched_length] at this
+    simpa [speciesThreads] using this
+  unfold specPost at hp
+  rw [List.getElem?_eq_getElem htl] at hp
+  exact ⟨_, List.getElem?_eq_getElem htl, hp.2.2, fun b hb => (hp.2.1 b hb).wft⟩
+
 /-- what the join knows: the babies (exactly `PopSize`, in order of arrival), the final registry and a global view `G`
     that satisfies the invariant, holds the whole history and every baby -/
 theorem parReproduce_facts (X H : List (Genome W)) (o : EpochOpts W) (generation : Int) (p1 p2 : Pop W) (ex : ExecState)
@@ -118,12 +174,6 @@ theorem parReproduce_facts (X H : List (Genome W)) (o : EpochOpts W) (generation
       GlobOk p1.reg.nextInn regF G ∧ (∀ b ∈ binds H, b ∈ G.B) ∧ (∀ r ∈ roles H, r ∈ G.R) ∧
       (∀ b ∈ babies, MemberOk p1.reg (X ++ genomesOfPop p1) G b.genome) ∧
       p1.reg.nextInn ≤ regF.nextInn ∧ p1.reg.nextNode ≤ regF.nextNode := by
-  have ctx : EpochCtx p1.reg H (X ++ genomesOfPop p1) := by
-    refine ⟨hc1.inv, hP1, fun g hg => ?_⟩
-    rcases List.mem_append.mp hg with hx | hg
-    · exact hX g hx
-    · obtain ⟨s, hs, x, hx, rfl⟩ := mem_genomesOfPop.mp hg
-      exact hc1.cov s hs x hx
   unfold parReproducePhase at h
   simp only at h
   split at h
@@ -134,49 +184,20 @@ theorem parReproduce_facts (X H : List (Genome W)) (o : EpochOpts W) (generation
   split at h
   · cases h
   rename_i hlen
-  -- the start state is covered
-  have hcov : Covered p1.reg.nextInn (specPost p1.reg (X ++ genomesOfPop p1) H p1.species) (binds H) (roles H)
-      ({ reg := p1.reg, threads := p1.species.zipIdx.map (fun (x : Species W × Nat) =>
-          reproduceSpeciesP o generation x.1 (ex.sortedIds.filterMap (fun i => p1.species.find? (·.id == i))) p1.reg p1.nextUid
-            (ps.streams.getD x.2 [])) } : PState W (BRes W)) := by
-    refine ⟨⟨binds H, roles H, [], []⟩, fun _ => view0 H, ?_, ?_⟩
-    · refine ⟨⟨hc1.inv, by simp, by simp, by simp, by simp, by simp, by simp, by simp, by simp,
-                by simp [regInns_def, hc1.norec], by simp, Int.le_refl _⟩,
-              fun t => ⟨fun _ hb => hb, fun _ hp => hp, by simp [view0], by simp [view0], by simp [view0]⟩,
-              fun _ hb => .inl hb, fun _ hp => .inl hp, fun _ hb => hb, fun _ hp => hp⟩
-    · intro t q hq
-      simp only [List.getElem?_map, List.getElem?_zipIdx] at hq
-      cases hs : p1.species[t]? with
-      | none => rw [hs] at hq; cases hq
-      | some s =>
-        rw [hs] at hq
-        simp only [Option.map_some, Option.some.injEq] at hq
-        subst hq
-        have hsm : s ∈ p1.species := List.mem_of_getElem? hs
-        unfold specPost
-        rw [hs]
-        refine reproduceSpeciesP_valid ctx o generation s _ p1.reg p1.nextUid _ (view0 H)
-          (fun x hx => List.mem_append_right _ (mem_genomesOfPop.mpr ⟨s, hsm, x, hx, rfl⟩))
-          (fun sp hsp x hx => ?_) ⟨fun _ hb => hb, fun _ hp => hp⟩
-        obtain ⟨i, _, hi⟩ := List.mem_filterMap.mp hsp
-        exact List.mem_append_right _ (mem_genomesOfPop.mpr ⟨sp, List.mem_of_find?_eq_some hi, x, hx, rfl⟩)
+  have hcov := species_start_covered X H o generation p1 ex ps.streams hP1 hc1 hX
   obtain ⟨G, Ls, hg, hpost⟩ := flush_all (sched_sound ps.sched hcov)
-  have hmono := runSched_mono ps.sched ({ reg := p1.reg, threads := p1.species.zipIdx.map (fun (x : Species W × Nat) =>
-          reproduceSpeciesP o generation x.1 (ex.sortedIds.filterMap (fun i => p1.species.find? (·.id == i))) p1.reg p1.nextUid
-            (ps.streams.getD x.2 [])) } : PState W (BRes W))
+  have hmono := runSched_mono ps.sched ({ reg := p1.reg, threads := speciesThreads o generation p1 ex ps.streams } : PState W (BRes W))
   refine ⟨babies, _, G, by simpa using hlen, h, hg.glob, hg.baseB, hg.baseR, ?_, hmono.1, hmono.2.1⟩
   intro b hb
   obtain ⟨t, bs, uid, rs', ht, hbm⟩ := collect_mem _ _ _ hcol b hb
   have hp := hpost t _ ht
   have htl : t < p1.species.length := by
-    have : t < (runSched ({ reg := p1.reg, threads := p1.species.zipIdx.map (fun (x : Species W × Nat) =>
-          reproduceSpeciesP o generation x.1 (ex.sortedIds.filterMap (fun i => p1.species.find? (·.id == i))) p1.reg p1.nextUid
-            (ps.streams.getD x.2 [])) } : PState W (BRes W)) ps.sched).threads.length := by
+    have : t < (runSched ({ reg := p1.reg, threads := speciesThreads o generation p1 ex ps.streams } : PState W (BRes W)) ps.sched).threads.length := by
       rcases Nat.lt_or_ge t _ with h' | h'
       · exact h'
       · rw [List.getElem?_eq_none h'] at ht; cases ht
     rw [runSched_length] at this
-    simpa using this
+    simpa [speciesThreads] using this
   unfold specPost at hp
   rw [List.getElem?_eq_getElem htl] at hp
   obtain ⟨_, hall, _⟩ := hp
